@@ -6,5 +6,4 @@ CONSTANTS
 INIT Init
 NEXT GenNext
 ACTION_CONSTRAINT Emit
-INVARIANTS GenInv
 CHECK_DEADLOCK FALSE
